@@ -455,7 +455,23 @@ impl Sim {
                     // the model refused an admin operation of a non-admin in this step
                     props.push("C12");
                 }
-                self.v(&props, "accepted_but_must_fail", format!("{}: returned Ok but the model says the call must fail (model faults so far: {:?})", what, self.model.faults.keys().collect::<Vec<_>>()));
+                // what made the call fail in the model names the statement whose "fails" clause was ignored
+                let rc = self.model.root_cause().unwrap_or("").to_string();
+                let extra: &[&'static str] = match rc.as_str() {
+                    "not_admin" => &["C12"],
+                    "bank_overdraft" | "bank_empty_amount" => &["C09"],
+                    "funds_transfer_failed" => &["C05", "C09"],
+                    "duplicate_address" | "duplicate_salt" | "unknown_code_id" | "bad_salt_length" | "creator_not_canonical" => &["C11"],
+                    k if k.starts_with("malformed_response") => &["C13"],
+                    k if k.starts_with("failing_module:") || k.starts_with("module_reject:") => &["C17"],
+                    _ => &[],
+                };
+                for e in extra {
+                    if !props.contains(e) {
+                        props.push(e);
+                    }
+                }
+                self.v(&props, "accepted_but_must_fail", format!("{}: returned Ok but the model says the call must fail (cause in the model: {}; model faults so far: {:?})", what, rc, self.model.faults.keys().collect::<Vec<_>>()));
             }
             (RealOut::Err(e), Ok(_)) => {
                 let mut props = vec!["C01", "C02"];
